@@ -51,6 +51,11 @@ def line(k, c=0, cls='', wf='', st=0, pr='', sc=False, a=0, b=0):
 # ---------------------------------------------------------------------------
 # the independent decoder: the client's view of the bytes written in one step
 
+# http.client refuses lines over 64 KiB and more than 100 header fields: limits of that
+# client, not of the message syntax (a 301 repeats a 300 000-byte target in Location)
+http.client._MAXLINE = 1 << 24
+http.client._MAXHEADERS = 10000
+
 class _Bio(io.BytesIO):
     def close(self):            # HTTPResponse closes its file when a message ends
         pass
@@ -307,6 +312,7 @@ def run_script(script, strict=False):
     message, for the component they would continue the old one."""
     w = World()
     done = []
+    last = {}                # c -> the last message delivered on c
     try:
         for step in script:
             if w.dead:
@@ -322,10 +328,17 @@ def run_script(script, strict=False):
             elif strict and op in ('in', 'inx') and step[2].cls != 'Rest' and w.waiting(c):
                 done.append(None)
                 continue
+            elif strict and op in ('in', 'inx') and step[2].cls == 'Rest' and not (
+                    last.get(c) is not None and last[c].cls == 'Truncate' and last[c].rest == step[2].data
+                    and last[c].sub == step[2].sub):
+                done.append(None)          # its Truncate was skipped: nothing to complete
+                continue
             elif op == 'in':
                 w.feed(c, step[2])
+                last[c] = step[2]
             elif op == 'inx':
                 w.feed(c, step[2], then_disconnect=True)
+                last[c] = step[2]
             elif op == 'disc':
                 w.disconnect(c)
             done.append(step)
